@@ -151,7 +151,7 @@ Inductive effect := FxNone | FxDrop | FxLookup (n : string) | FxDecref (clid k :
    while they are parsed (so nothing is instantiated for a call that does not fit) *)
 Definition broker_call (m : mname) (args : list arg) : outcome * effect :=
   match m with
-  | MBad => (Aborted, FxDrop)
+  | MBad => match methodname_undecodable with AbortR => (Aborted, FxDrop) | RejectR => (Reject, FxNone) end
   | MStr s =>
     if iface_enforced && negb (mem_str s broker_methods) then (Reject, FxNone)
     else if negb (mem_str (remote_prefix ++ s) broker_remote_attrs) then (Reject, FxNone)
@@ -187,7 +187,7 @@ Definition obj_call (w : world) (copy : list (string * Z)) (cn : conn) (clid : Z
       end
     else
       match m with
-      | MBad => ([], Aborted)
+      | MBad => ([], refuse methodname_undecodable)
       | MStr s =>
         if iface_enforced && match o_iface (w_obj w o) with Some l => negb (mem_str s l) | None => false end
         then ([], Reject)
